@@ -126,7 +126,7 @@ CLIENTS = [
 ]
 
 
-def call_execute(ci: int, variables, kwargs):
+def call_execute(ci: int, variables, kwargs, opname="Q", query="query Q { a }"):
     name, cls, is_async, tracer = CLIENTS[ci]
     c = cls.__new__(cls)
     c.url = "http://x/graphql"
@@ -138,13 +138,13 @@ def call_execute(ci: int, variables, kwargs):
     c.root_context = None
     try:
         if is_async:
-            co = c.execute("query Q { a }", "Q", variables, **kwargs)
+            co = c.execute(query, opname, variables, **kwargs)
             try:
                 co.send(None)
                 return rec, ("suspended",)
             except StopIteration as s:
                 return rec, ("ok", s.value)
-        return rec, ("ok", c.execute("query Q { a }", "Q", variables, **kwargs))
+        return rec, ("ok", c.execute(query, opname, variables, **kwargs))
     except Exception as e:
         return rec, ("exc", type(e).__name__)
 
@@ -171,17 +171,29 @@ def expected_request(entries, kwargs):
         exp = {"url": "http://x/graphql", "data_ops": ops, "data_map": fmap,
                "files": {str(i): (u.filename, u.content, u.content_type) for i, u in enumerate(files)}}
         exp.update(kwargs)
+        if "headers" in exp:
+            exp["headers"] = _ci_headers(exp["headers"])
         return "multipart", exp
-    headers = {"Content-Type": "application/json"}
-    headers.update(kwargs.get("headers", {}))
+    headers = {"content-type": "application/json"}
+    headers.update({k.lower(): v for k, v in kwargs.get("headers", {}).items()})  # the caller's headers win, whatever their case
     exp = {"url": "http://x/graphql", "content": ops}
     exp.update(kwargs)
-    exp["headers"] = headers
+    exp["headers"] = {k: [v] for k, v in headers.items()}
     return "json", exp
+
+
+def _ci_headers(h):
+    """header names are case-insensitive on the wire: {lower-cased name: sorted values}"""
+    out = {}
+    for k, v in (h or {}).items():
+        out.setdefault(k.lower(), []).append(v)
+    return {k: sorted(v) for k, v in out.items()}
 
 
 def normalise(call):
     c = dict(call)
+    if "headers" in c:
+        c["headers"] = _ci_headers(c["headers"])
     if "content" in c:
         c["content"] = json.loads(c["content"])
         return "json", c
@@ -193,7 +205,8 @@ def normalise(call):
     return "multipart", c
 
 
-KW = [{}, {"headers": {"X": "1"}}, {"headers": {"Content-Type": "text/x", "A": "b"}, "timeout": 3}, {"timeout": 5}]
+KW = [{}, {"headers": {"X": "1"}}, {"headers": {"Content-Type": "text/x", "A": "b"}, "timeout": 3}, {"timeout": 5}, {"headers": {"content-type": "application/custom+json"}}]
+KW_LOWER_CT = 4
 
 
 def _check(ci, a_kind, a0, a1, an, b_sel, kw_sel):
@@ -206,6 +219,12 @@ def _check(ci, a_kind, a0, a1, an, b_sel, kw_sel):
     kw = pick(kw_sel, len(KW))
     with NoTracing():
         ok, model_in_dict = _concrete(ci, ak, c0, c1, cnt, bs, kw)
+    if not ok and kw == KW_LOWER_CT and not model_in_dict:
+        with NoTracing():
+            only_header = _concrete(ci, ak, c0, c1, cnt, bs, 0)[0]
+        if only_header:
+            # the same request without the lower-case header is right: the defect is the case-sensitive merge of the default header
+            return known("C11-header-merge-case-sensitive")
     if not ok and model_in_dict:
         # _convert_value does not descend into dicts: the model is dumped by json.dumps' default (unset fields
         # included) or, when it holds an Upload, cannot be serialised at all
@@ -257,7 +276,23 @@ def check_empty_variables(ci: int, which: int) -> bool:
         return False
     kind, got = normalise(rec.calls[0])
     return kind == "json" and got == {"url": "http://x/graphql", "content": {"query": "query Q { a }", "operationName": "Q", "variables": {}},
-                                      "headers": {"Content-Type": "application/json"}}
+                                      "headers": {"content-type": ["application/json"]}}
+
+
+def check_anonymous_operation(ci: int, which: int) -> bool:
+    """
+    pre: 0 <= ci < 6
+    post: _
+    """
+    # execute() without an operation name (an anonymous operation): operationName travels as null, JSON and multipart alike
+    variables = [None, {"a": 1}, {"f": UP_A}][pick(which, 3)]
+    rec, out = call_execute(pick(ci, 6), variables, {}, None, "{ a }")
+    if out != ("ok", "RESP") or len(rec.calls) != 1:
+        return False
+    kind, got = normalise(rec.calls[0])
+    body = got.get("content") if kind == "json" else got.get("data_ops")
+    want_vars = {} if variables is None else ({"a": 1} if "a" in variables else {"f": None})
+    return isinstance(body, dict) and body == {"query": "{ a }", "operationName": None, "variables": want_vars} and (kind == "multipart") == (variables is not None and "f" in variables)
 
 
 def _two_calls(ci, k1, k2, same_instance, upload_first):
@@ -308,7 +343,8 @@ def check_call_history(ci: int, k1: int, k2: int, same_instance: bool, upload_fi
     """
     post: _
     """
-    c, a, b = pick(ci, len(CLIENTS)), pick(k1, len(KW)), pick(k2, len(KW))
+    # the lower-case header variant (a listed defect of every single call) is not part of the history exploration
+    c, a, b = pick(ci, len(CLIENTS)), pick(k1, KW_LOWER_CT), pick(k2, KW_LOWER_CT)
     si, uf = (True if same_instance else False), (True if upload_first else False)
     with NoTracing():
         try:
